@@ -997,6 +997,27 @@ MUTANTS = [
       "            auth_token=token,\n            is_trust_scoped=True,",
       "            user_id=user_id,\n            project_id=None,\n"
       "            auth_token=token,\n            is_trust_scoped=True,"),
+    m('C11-cancelled-item-not-terminal', 'C11', ['R7'], E + 'tasks.py',
+      "        if list(filter(find_cancelled, self.task_ex.executions)):\n"
+      "            return True\n\n        execs = list(",
+      "        execs = list("),
+    m('C11-final-state-error-before-cancelled', 'C11', ['R7'], E + 'tasks.py',
+      "        if list(filter(find_cancelled, self.task_ex.executions)):\n"
+      "            return states.CANCELLED\n"
+      "        elif list(filter(find_error, self.task_ex.executions)):\n"
+      "            return states.ERROR",
+      "        if list(filter(find_error, self.task_ex.executions)):\n"
+      "            return states.ERROR\n"
+      "        elif list(filter(find_cancelled, self.task_ex.executions)):\n"
+      "            return states.CANCELLED"),
+    m('C15-keycloak-roles-header-kept', 'C15', ['R8'],
+      'mistral/auth/keycloak.py',
+      '        req.headers["X-Roles"] = roles',
+      '        if roles:\n            req.headers["X-Roles"] = roles'),
+    m('C16-keycloak-project-header-default', 'C16', ['R8'],
+      'mistral/auth/keycloak.py',
+      '        req.headers["X-Project-Id"] = realm_name',
+      '        req.headers.setdefault("X-Project-Id", realm_name)'),
 ]
 
 
@@ -1372,4 +1393,12 @@ REFACTORS = [
       "\n            p.before_task_start(self)",
       "        built = policies.build_policies(policies_spec, self.wf_spec)\n"
       "\n        for p in built:\n            p.before_task_start(self)"),
+    r('C15-ref-keycloak-headers-update-order', 'C15',
+      'mistral/auth/keycloak.py',
+      '        req.headers["X-Identity-Status"] = "Confirmed"\n'
+      '        req.headers["X-Project-Id"] = realm_name\n'
+      '        req.headers["X-Roles"] = roles',
+      '        req.headers["X-Roles"] = roles\n'
+      '        req.headers["X-Project-Id"] = realm_name\n'
+      '        req.headers["X-Identity-Status"] = "Confirmed"'),
 ]
